@@ -9,6 +9,13 @@ pub fn vx_panic() -> !
     requires false,
 { panic!() }
 
+/// R8': used in the "refusal" copies of the Number operators: a panic is a call that never returns normally
+/// (no precondition).  A copy verified against `ensures false` therefore has NO path that returns a value.
+#[verifier::external_body]
+pub fn vx_refuse() -> !
+    ensures false,
+{ panic!() }
+
 /// R8: `assert!(c)` / `assert_eq!(a, b)` become a call whose precondition is the asserted condition.
 #[verifier::external_body]
 pub fn vx_assert(c: bool)
